@@ -178,27 +178,128 @@ def zip_members(limit, sizes):
     return [(s, f"m{i}.txt" in reads) for i, s in enumerate(sizes)], len(outs)
 
 
-def tar_members(limit, sizes, gz=True):
-    from sharepoint2text.parsing.extractors import archive_extractor as A
+_TAR_TYPES = {"reg": tarfile.REGTYPE, "hardlink": tarfile.LNKTYPE, "symlink": tarfile.SYMTYPE, "dir": tarfile.DIRTYPE,
+              "special": tarfile.FIFOTYPE}
+
+
+def tar_kind(ti):
+    return "reg" if ti.isreg() else "hardlink" if ti.islnk() else "symlink" if ti.issym() else "dir" if ti.isdir() else "special"
+
+
+def tar_archive(members, gz=True):
+    """members: [{"name", "type": reg|hardlink|symlink|dir|special, "size": payload bytes (reg) / forged header size
+    (others), "link": linkname}] -> archive bytes.  A link entry is a header only (no data blocks)."""
     buf = io.BytesIO()
-    with tarfile.open(fileobj=buf, mode="w:gz" if gz else "w") as tf:
-        for i, s in enumerate(sizes):
-            ti = tarfile.TarInfo(f"m{i}.txt")
-            ti.size = s
-            tf.addfile(ti, io.BytesIO(_payload(s, i)))
-    reads = []
+    with tarfile.open(fileobj=buf, mode="w:gz" if gz else "w", **({"compresslevel": 1} if gz else {})) as tf:
+        for i, m in enumerate(members):
+            ti = tarfile.TarInfo(m["name"])
+            ti.type = _TAR_TYPES[m["type"]]
+            if m["type"] == "reg":
+                ti.size = m["size"]
+                tf.addfile(ti, io.BytesIO(_payload(m["size"], i)))
+            else:
+                ti.linkname = m.get("link") or ""
+                ti.size = m.get("size", 0)          # tarfile writes the field as given and no data blocks
+                tf.addfile(ti)
+    return buf.getvalue()
+
+
+def tar_reference(data):
+    """what plain `tarfile` says about every member: (name, kind, size field of its OWN header, number of bytes
+    `extractfile(member).read()` delivers or None when it returns None / raises) — the inputs of the Lean model"""
+    ref = []
+    with tarfile.open(fileobj=io.BytesIO(data), mode="r:*") as tf:
+        for m in tf.getmembers():
+            try:
+                f = tf.extractfile(m)
+                n = None if f is None else len(f.read())
+            except Exception:
+                n = None
+            ref.append({"name": m.name, "kind": tar_kind(m), "size": m.size, "delivers": n})
+    return ref
+
+
+class _CountingHandle:
+    """the object `extractfile` returned, with every read recorded (name of the member asked for, bytes delivered)"""
+
+    def __init__(self, f, name, log):
+        self._f, self._name, self._log = f, name, log
+
+    def _rec(self, d):
+        self._log.append((self._name, len(d) if d is not None else 0))
+        return d
+
+    def read(self, *a, **k):
+        return self._rec(self._f.read(*a, **k))
+
+    def read1(self, *a, **k):
+        return self._rec(self._f.read1(*a, **k))
+
+    def readall(self):
+        return self._rec(self._f.readall())
+
+    def readline(self, *a):
+        return self._rec(self._f.readline(*a))
+
+    def __iter__(self):
+        for line in self._f:
+            yield self._rec(line)
+
+    def __enter__(self):
+        return self
+
+    def __exit__(self, *a):
+        return self._f.__exit__(*a)
+
+    def __getattr__(self, k):
+        return getattr(self._f, k)
+
+
+def tar_loop(limit, data):
+    """run the real member loop on archive bytes -> {"asked": names handed to extractfile, "chunks": [(name, bytes
+    delivered by one read of that handle)], "n_out": results yielded, "err": None | class}.
+    `TarFile.extractfile` follows links by calling itself: only the outermost call is wrapped."""
+    from sharepoint2text.parsing.extractors import archive_extractor as A
+    asked, chunks, depth = [], [], [0]
     orig = tarfile.TarFile.extractfile
 
     def spy(self, member):
-        reads.append(member.name if isinstance(member, tarfile.TarInfo) else member)
-        return orig(self, member)
+        name = member.name if isinstance(member, tarfile.TarInfo) else member
+        depth[0] += 1
+        try:
+            f = orig(self, member)
+        finally:
+            depth[0] -= 1
+        if depth[0] > 0:
+            return f
+        asked.append(name)
+        return None if f is None else _CountingHandle(f, name, chunks)
+    orig_all, orig_one = tarfile.TarFile.extractall, tarfile.TarFile.extract
+
+    def no_extract(self, *a, **k):
+        chunks.append(("<extract/extractall>", -1))
+        raise tarfile.TarError("extract/extractall is not expected in the member loop (observation)")
     tarfile.TarFile.extractfile = spy
+    tarfile.TarFile.extractall = tarfile.TarFile.extract = no_extract
+    err, outs = None, []
     try:
         with _Config(limit):
-            outs = list(A._extract_from_tar_optimized(io.BytesIO(buf.getvalue()), None))
+            try:
+                outs = list(A._extract_from_tar_optimized(io.BytesIO(data), None))
+            except Exception as e:
+                err = type(e).__name__
     finally:
         tarfile.TarFile.extractfile = orig
-    return [(s, f"m{i}.txt" in reads) for i, s in enumerate(sizes)], len(outs)
+        tarfile.TarFile.extractall, tarfile.TarFile.extract = orig_all, orig_one
+    return {"asked": asked, "chunks": chunks, "n_out": len(outs), "err": err}
+
+
+def tar_members(limit, sizes, gz=True):
+    """regular members only -> per member: (declared size, was its content read), number of results"""
+    data = tar_archive([{"name": f"m{i}.txt", "type": "reg", "size": s} for i, s in enumerate(sizes)], gz=gz)
+    got = tar_loop(limit, data)
+    read = {nm for nm, _ in got["chunks"]}
+    return [(s, f"m{i}.txt" in read) for i, s in enumerate(sizes)], got["n_out"]
 
 
 def sevenzip_is_fixed():
@@ -314,19 +415,24 @@ ODS_TAIL = '</table:table></office:spreadsheet></office:body></office:document-c
 ROW_OPEN, ROW_CLOSE = '<table:table-row table:number-rows-repeated="', '</table:table-row>'
 EMPTY_CELL = ('<table:table-cell table:number-columns-repeated="', '"/>')
 TEXT_CELL = ('<table:table-cell table:number-columns-repeated="', '" office:value-type="string"><text:p>', '</text:p></table:table-cell>')
+COVERED_CELL = ('<table:covered-table-cell table:number-columns-repeated="', '"/>')
+COVERED = "<covered>"      # marker in the place of a cell's text: a table:covered-table-cell with that repeat count
 ODS_ENVELOPE = len(ODS_HEAD) + len(ODS_TAIL)
 ODS_ROW_TAGS = len(ROW_OPEN) + len('">') + len(ROW_CLOSE)
 ODS_EMPTY_TAGS = len(EMPTY_CELL[0]) + len(EMPTY_CELL[1])
 ODS_TEXT_TAGS = sum(len(x) for x in TEXT_CELL)
+ODS_COVERED_TAGS = sum(len(x) for x in COVERED_CELL)
 
 
 def ods_xml(rows):
-    """rows: [(row_repeat, [(cell_repeat, text | None), ...]), ...]"""
+    """rows: [(row_repeat, [(cell_repeat, text | None | COVERED), ...]), ...]"""
     parts = [ODS_HEAD]
     for rr, cells in rows:
         parts.append(f'{ROW_OPEN}{rr}">')
         for cr, t in cells:
-            if t is None:
+            if t == COVERED:
+                parts.append(f"{COVERED_CELL[0]}{cr}{COVERED_CELL[1]}")
+            elif t is None:
                 parts.append(f"{EMPTY_CELL[0]}{cr}{EMPTY_CELL[1]}")
             else:
                 parts.append(f"{TEXT_CELL[0]}{cr}{TEXT_CELL[1]}{t}{TEXT_CELL[2]}")
@@ -356,6 +462,7 @@ def ods_extract(rows):
 
 def ods_model_request(rows):
     return {"op": "c12.ods", "envelope": ODS_ENVELOPE, "row_tags": ODS_ROW_TAGS, "empty_tags": ODS_EMPTY_TAGS,
-            "text_tags": ODS_TEXT_TAGS,
-            "rows": [{"rep": rr, "cells": [{"rep": cr, "none": t is None, "tlen": 0 if t is None else len(t)} for cr, t in cells]}
+            "text_tags": ODS_TEXT_TAGS, "covered_tags": ODS_COVERED_TAGS,
+            "rows": [{"rep": rr, "cells": [({"rep": cr, "covered": True} if t == COVERED else
+                                            {"rep": cr, "none": t is None, "tlen": 0 if t is None else len(t)}) for cr, t in cells]}
                      for rr, cells in rows]}
